@@ -152,7 +152,9 @@ func c13Ingest(seed int64, i int, sc c13Scenario, dir string, out *childOut) {
 	switch sc.State {
 	case "waiting-for-writer":
 		// Ingest's opener goroutine is in open(2), Ingest itself parked in select.
-		reached = waitParked(fn, "select", c13Watch)
+		// (An implementation whose open does not wait for a writer is parked in
+		// its first read instead: just as much a state to be cancelled from.)
+		reached = waitParked(fn, "select|IO wait|syscall", c13Watch)
 	case "idle-pipe":
 		if openW() {
 			reached = waitParked(fn, "IO wait|syscall", c13Watch)
